@@ -79,5 +79,5 @@ SWEEP_NOTE = (" The 'sweep' variant is a complete single-fault enumeration: a sm
               "for every (API call ordinal, fault kind in {drop, lost ack, crash before, crash after}) pair with exactly that fault pinned; coverage keys "
               "sweep.pilots_enumerated_completely / sweep.fault_points_of_complete_pilots count the pilots whose space was enumerated completely.")
 for _p in ("C09", "C05", "C20"):
-    CAMPAIGNS[_p]["variants"].append(V("full", 40, 60, 3000, 1500, name="sweep", variant="sweep"))
+    CAMPAIGNS[_p]["variants"].append(V("full", 40 if _p == "C09" else 12, 60, 3000, 1500, name="sweep", variant="sweep"))
     CAMPAIGNS[_p]["rule"] += SWEEP_NOTE
